@@ -502,10 +502,27 @@ def _match_unicode_identifier(
             # Strip trailing hyphens from qualifier (same as identifier rule)
             while qualifier_end > qualifier_start + 1 and content[qualifier_end - 1] == "-":
                 qualifier_end -= 1
+            # GH#300: further comma-separated qualifiers (NEVER<A,B,C>), the canonical
+            # form the emitter writes for multi-argument constructors NAME[A,B,C].
+            while qualifier_end < len(content) and content[qualifier_end] == ",":
+                next_start = qualifier_end
+                while next_start < len(content) and content[next_start] == ",":
+                    next_start += 1
+                next_end = next_start
+                while next_end < len(content) and _is_valid_identifier_char(content[next_end]):
+                    next_end += 1
+                while next_end > next_start and content[next_end - 1] == "-":
+                    next_end -= 1
+                if next_end == next_start:
+                    break  # trailing comma: not an annotation
+                qualifier_end = next_end
             # Must have closing '>'
             if qualifier_end < len(content) and content[qualifier_end] == ">":
                 # Valid NAME<qualifier> -- extend end past '>'
                 end = qualifier_end + 1
+        elif qualifier_start < len(content) and content[qualifier_start] == ">":
+            # GH#300: empty qualifier NAME<>, the canonical form of NAME[]
+            end = qualifier_start + 1
 
     # GH#263: Check for curly-brace annotation NAME{qualifier}
     # This is a common mistake — users write {} instead of <>
